@@ -10,6 +10,9 @@
                     numItems++, _numberCapacityEviction (tail: delete, Swap(Removed), bytes only if Sized)
      Load           value.load / loadForDoc under the value lock: cached (body or error) -> hit, else load from
                     the backing store (success: body, itemBytes.Store; failure: value.err)
+     LoadFin        (only when the bucket can change, MaxUpd > 0) second half of a Get's load: Load is then the document READ
+     StoreUpdate    environment: the bucket changes the channels of a document's revision (same rev id and version)
+     Inval (call)   the feed-side Remove(k) after a StoreUpdate (ghost: from its completion only the bucket's content may be served)
      Cas, Add       Get/GetActive after a successful miss: CAS Loading->Sized, then incrementBytesCount(getItemBytes())
      FrmMark, FrmRem  removeValueForFailedLoad: memState.Store(Removed) outside the lock, then under rc.lock
                     remove iff the key still maps to this value, numItems--
@@ -61,6 +64,7 @@ VARIABLES cmap,      \* rc.cache: key -> value id (0 = absent)
                      \*        invalidation (the feed-side Remove after a StoreUpdate) has not completed yet
           okset,     \* ghost: per thread, what the call in progress may return: allowed[k] when it started + every later update
           fl,        \* ghost: per thread, the call in progress [k, op] (k = Nil: none)
+          raced,     \* ghost: per thread, another call on the same key has been in progress during this call
           ever,      \* ghost: per key, every content the bucket has held
           pend,      \* ghost: keys whose invalidation is outstanding
           nupd,      \* ghost: number of StoreUpdates so far
@@ -70,9 +74,10 @@ VARIABLES cmap,      \* rc.cache: key -> value id (0 = absent)
 
 impl  == <<cmap, lru, val, numItems, total, evLock, pc, th, out>>
 conf  == <<cap, maxBytes, store, csize>>
-ghost == <<tainted, stale, allowed, okset, fl, ever, pend, nupd, dev, nops>>
+ghost == <<tainted, stale, allowed, okset, fl, raced, ever, pend, nupd, dev, nops>>
 vars  == <<impl, conf, ghost, hist>>
-view  == <<cmap, lru, val, numItems, total, evLock, pc, th, conf, ghost>>     \* out is write-only: not part of the view
+view  == <<cmap, lru, val, numItems, total, evLock, pc, th, conf, tainted, stale, allowed, okset, fl, ever, pend, nupd, dev, nops>>
+        \* out is write-only and raced only classifies a stale Peek (never stale in the model): not part of the view
 
 FreeVal == [key |-> Nil, c |-> Nil, e |-> FALSE, ms |-> "R", b |-> 0, cb |-> 0, ld |-> 0, ldg |-> FALSE]
 NewVal(k) == [key |-> k, c |-> Nil, e |-> FALSE, ms |-> "L", b |-> 0, cb |-> 0, ld |-> 0, ldg |-> FALSE]   \* ldg: value.lock held by a load in progress
@@ -115,6 +120,7 @@ Init ==
   /\ tainted = {} /\ stale = {} /\ dev = {} /\ nops = [t \in Threads |-> 0]
   /\ allowed = [k \in Keys |-> {store[DocOf(k)]} \ {Missing}] /\ ever = [k \in Keys |-> {store[DocOf(k)]} \ {Missing}]
   /\ okset = [t \in Threads |-> {}] /\ fl = [t \in Threads |-> NoFl] /\ pend = {} /\ nupd = 0
+  /\ raced = [t \in Threads |-> FALSE]
   /\ hist = <<>>
 
 FirstPc(op) == CASE op = "Get" -> "getval" [] op = "GetActive" -> "gadoc" [] op = "Put" -> "getval"
@@ -128,6 +134,7 @@ ImplStart(t, op, k, c, f) ==
 GhostBegin(t, op, k, c) ==
   /\ tainted' = IF op \in {"Put", "Upsert"} /\ c # store[DocOf(k)] THEN tainted \cup {k} ELSE tainted
   /\ okset' = [okset EXCEPT ![t] = allowed[k]] /\ fl' = [fl EXCEPT ![t] = [k |-> k, op |-> op]]
+  /\ raced' = [u \in Threads |-> IF u = t THEN \E w \in Threads \ {t} : fl[w].k = k ELSE raced[u] \/ fl[u].k = k]
 
 (* GetActive: bucket read first; an error returns without touching the cache *)
 ImplGaDoc(t) ==
@@ -320,13 +327,16 @@ ImplMeFin(t) ==
 IsStale(t, o) == o.c # Nil /\ o.k \notin tainted /\ o.c \notin okset[t]
 GhostEnd(t) ==     \* refers to out' (determined by the Impl action or by the logged return value)
   LET o == out'[t] IN
-  /\ stale' = IF IsStale(t, o) THEN stale \cup {[k |-> o.k, c |-> o.c, old |-> o.c \in ever[o.k]]} ELSE stale
-  /\ okset' = [okset EXCEPT ![t] = {}] /\ fl' = [fl EXCEPT ![t] = NoFl]
+  /\ stale' = IF IsStale(t, o)
+              THEN stale \cup {[k |-> o.k, c |-> o.c, old |-> o.c \in ever[o.k],
+                                torn |-> o.op = "Peek" /\ raced[t] /\ o.c \notin ever[o.k]]}   \* see NoTornPeek
+              ELSE stale
+  /\ okset' = [okset EXCEPT ![t] = {}] /\ fl' = [fl EXCEPT ![t] = NoFl] /\ raced' = [raced EXCEPT ![t] = FALSE]
   /\ IF fl[t].op = "Inval"        \* the invalidation has completed: from now on only the bucket's current content may be served
      THEN /\ allowed' = [allowed EXCEPT ![fl[t].k] = {store[DocOf(fl[t].k)]} \ {Missing}]
           /\ pend' = pend \ {fl[t].k}
      ELSE UNCHANGED <<allowed, pend>>
-GhostRet(t) == IF pc'[t] = "idle" THEN GhostEnd(t) ELSE UNCHANGED <<stale, okset, fl, allowed, pend>>
+GhostRet(t) == IF pc'[t] = "idle" THEN GhostEnd(t) ELSE UNCHANGED <<stale, okset, fl, raced, allowed, pend>>
 
 (* the bucket: a metadata-only update gives document d the content c (same revision id and version, other channels) *)
 GhostStoreUpdate(d, c) ==
@@ -340,7 +350,7 @@ GhostStoreUpdate(d, c) ==
 StoreUpdateTo(d, c) ==
   /\ store[d] # Missing /\ c # store[d] /\ c # Missing
   /\ store' = [store EXCEPT ![d] = c] /\ GhostStoreUpdate(d, c)
-  /\ UNCHANGED <<impl, cap, maxBytes, csize, stale, fl, dev, nops>>
+  /\ UNCHANGED <<impl, cap, maxBytes, csize, stale, fl, raced, dev, nops>>
 
 (* named deviations of the code from exact accounting (recorded when they happen; see NOTES.md):
    "resize"  itemBytes is overwritten (Put/Upsert SBytes, or a load finishing after a Put sized the value) while
@@ -429,7 +439,11 @@ Bounded     == Len(lru) <= cap                                   \* every state 
 ItemsExact  == Quiescent => numItems = Cardinality(Mapped)
 BytesExact  == Quiescent => total = SumCB(lru)              \* gauge = recount of what the cache actually holds
 EmptyIsZero == (Quiescent /\ Mapped = {}) => (numItems = 0 /\ total = 0)
-Fresh       == \A x \in stale : x.old                 \* nothing is served that the bucket never held for that key
+Fresh       == \A x \in stale : x.old \/ x.torn       \* nothing is served that the bucket never held for that key
+(* Peek reads the value WITHOUT its lock (asDocumentRevision vs value.store / load: a data race).  The model reads atomically, so this
+   never fails in the model; on recorded real runs a Peek that overlapped another call on the same key and returned something the
+   bucket never held is classified here (a partially written revision) instead of under Fresh. *)
+NoTornPeek  == \A x \in stale : ~x.torn
 FreshAfterInvalidate == \A x \in stale : ~x.old         \* once the invalidation of an update has completed, no later call returns the pre-update content
 FreshAfterInvalidateND == "stalefill" \in dev \/ FreshAfterInvalidate
 (* the accounting clauses hold exactly in every behaviour free of the named deviations *)
